@@ -18,6 +18,7 @@ inductive Act
   | stall                               -- stay silent forever, connection open
   | garbage                             -- bytes that are not an SMTP reply
   | tlsBad                              -- (handshake position only) certificate the client must reject
+  | deaf                                -- the well-behaved reply, then the server neither reads nor writes any more
 deriving Repr, DecidableEq
 
 inductive Verb
@@ -74,6 +75,7 @@ structure Conn where
   cliOpen  : Bool := true               -- the client has not closed its end
   srvGone  : Bool := false              -- server dropped the connection (or said 221)
   srvSilent : Bool := false             -- server stalled
+  srvDeaf  : Bool := false              -- server stopped reading: writes beyond the transport's buffers wait
   armed    : Bool := false
   inData   : Bool := false              -- server is collecting message content
   -- smtp.Client
@@ -145,6 +147,8 @@ def Conn.applyAct (c : Conn) (v : Verb) (expect : Nat) : Act → Conn × Except 
   | .tlsBad => (c.ev .garbage, .error .proto)       -- only meaningful at a handshake position
   | .ok => c.replied v expect (defaultReply c.caps v).1 (defaultReply c.caps v).2
   | .reply code text => c.replied v expect code text
+  | .deaf => ({ (c.replied v expect (defaultReply c.caps v).1 (defaultReply c.caps v).2).1 with srvSilent := true, srvDeaf := true },
+              (c.replied v expect (defaultReply c.caps v).1 (defaultReply c.caps v).2).2)
 
 /-- The server takes its next action for `v`; the client then reads one reply expecting `expect`. -/
 def Conn.serverTurn (c : Conn) (v : Verb) (expect : Nat) : Conn × Except Err (Nat × Bytes) :=
